@@ -76,7 +76,7 @@ def generate(R, tier):
             op = R.choice(OPS_ALL)
         steps.append({"op": op, "axis": a, "argform": R.choice(["int", "negint", "npint", "slice", "list", "ndarray", "mask", "empty"]), "unnamed": R.random() < 0.15, "override": R.random() < 0.2,
                       "a": [R.randrange(1000) for _ in range(6)], "k": R.choice([1, 1, 2, 3]), "pick": R.randrange(4),
-                      "negaxis": R.random() < 0.25, "first": R.random() < 0.7})
+                      "negaxis": R.random() < 0.25, "first": R.random() < 0.7, "single": R.random() < 0.15})
     if key == "DensePhasedGenotypeMatrix":
         for _ in range(R.choice([0, 1, 1, 2])):
             steps.insert(R.randint(0, len(steps)), {"op": "genotype", "axis": "vrnt", "prot": R.choice(["unphased", "masked_phased", "masked_phased_inv", "masked_unphased", "masked_unphased_inv"]),
@@ -404,7 +404,13 @@ def execute(sc):
                         fault("concat_operand_without_names")
                     except Exception:
                         pass
-                if st["first"]:
+                if st.get("single"):
+                    # a list holding the receiver alone: the result is a new matrix equal to it
+                    expect[axis] = list(model.ids[axis])
+                    operands = []
+                    mk = lambda x: [x]
+                    fault("concat_of_a_single_matrix")
+                elif st["first"]:
                     expect[axis] = model.ids[axis] + new + new2
                     mk = lambda x: [x, operand, operand2]
                 else:
